@@ -39,6 +39,7 @@ func Generate(r *lib.Rng, tier string) *Case {
 	g.lists()
 	g.c.Twice = r.Chance(1, 4)
 	g.c.NoStore = g.c.NoID && r.Chance(1, 2)
+	dataless(g.c)
 	atomise(g.c)
 	// decided from Case.Seed, no extra draw (the other fields are what they were)
 	g.c.Restart = (g.c.Seed>>8)%3 == 1
@@ -113,6 +114,48 @@ func (g *genCtx) lists() {
 	l.After = dress(l.After)
 	c.Lists = l
 	c.Normalise()
+}
+
+// dataless (round 5) turns every data+control edge into some workflow nodes into a control-only edge (AddDependency):
+// such a node has NO data predecessor at all, its all-predecessor channel becomes ready without ever holding a value and
+// hands the node the zero value (Invoke) / the empty stream (Stream) that Compile supplies for it - which is not part of
+// a checkpoint, so after a resume it has to come from the compiled channel again. Decided from Case.Seed and the node id
+// (no draw: the other cases are what they were): a fifth of the eligible nodes (lambdas and nested graphs; no START
+// predecessor, no data-only edge into them, not a branch target, not the only data source of END).
+func dataless(c *Case) {
+	for gi := range c.Graphs {
+		g := &c.Graphs[gi]
+		if g.Mode != "wf" {
+			continue
+		}
+		for ni := range g.Nodes {
+			n := &g.Nodes[ni]
+			if n.Atom || n.InKey != 0 {
+				continue
+			}
+			ok, nin := true, 0
+			for _, e := range g.Edges {
+				if e.To == n.ID {
+					nin++
+					ok = ok && e.From != StartID && e.Kind != 2
+				}
+			}
+			for _, b := range g.Branches {
+				for _, t := range b.Targets {
+					ok = ok && t != n.ID
+				}
+			}
+			h := (c.Seed ^ uint64(n.ID)*0xc2b2ae3d27d4eb4f) >> 24
+			if !ok || nin == 0 || h%5 != 0 {
+				continue
+			}
+			for ei := range g.Edges {
+				if g.Edges[ei].To == n.ID && g.Edges[ei].Kind == 0 {
+					g.Edges[ei].Kind = 1
+				}
+			}
+		}
+	}
 }
 
 // atomise turns some workflow lambdas with a single data predecessor into atom nodes (input type string, fed unmapped
